@@ -115,7 +115,7 @@ Inductive op :=
 | ORegion (r : Z) (stores : list Z).                (* region heartbeat: region r now has peers on these stores *)
 
 Inductive res :=
-| ROk | RNone | RNotFound | RTombstone | RDestroyed | RIsUp | RInvalid | RVersion | RDupAddr
+| ROk | RNone | RNotFound | RTombstone | RDestroyed | RIsUp | RHasPeers | RInvalid | RVersion | RDupAddr
 | RStorage | RGrpcTombstone | RPanic | RBad.
 
 Record view := View {
@@ -229,6 +229,8 @@ Definition do_bury (s : state) (id : Z) (f : fault) : state * res :=
   | Some x =>
       if is_tomb x then (s, ROk)
       else if sstate_eqb (s_state x) Up then (s, RIsUp)
+      (* fix b5aa87e: the region tree is looked at again under the lock (checkStores read it without) *)
+      else if negb (tree_count s id =? 0) then (s, RHasPeers)
       else let '(s1, ok) := put_locked s id (with_state x Tombstone (s_pd x)) f 0 in
            (version_change s1, if ok then ROk else RStorage)
   end.
@@ -377,7 +379,7 @@ Definition label_eqb (a b : label) : bool := String.eqb (fst a) (fst b) && Strin
 Definition res_eqb (a b : res) : bool :=
   match a, b with
   | ROk, ROk | RNone, RNone | RNotFound, RNotFound | RTombstone, RTombstone | RDestroyed, RDestroyed
-  | RIsUp, RIsUp | RInvalid, RInvalid | RVersion, RVersion | RDupAddr, RDupAddr | RStorage, RStorage
+  | RIsUp, RIsUp | RHasPeers, RHasPeers | RInvalid, RInvalid | RVersion, RVersion | RDupAddr, RDupAddr | RStorage, RStorage
   | RGrpcTombstone, RGrpcTombstone | RPanic, RPanic | RBad, RBad => true
   | _, _ => false
   end.
@@ -502,9 +504,8 @@ Definition mon_step (past : list op) (rg : amap (list Z)) (o : op) (prev cur : o
        end
    | _ => []
    end) ++
-  (* 3 buried only while empty (a direct call of the hook is not a production path) *)
+  (* 3 buried only while empty (whoever calls buryStore: it re-checks the region tree under the lock, fix b5aa87e) *)
   (match o with
-   | OBury _ _ => []
    | _ => if forallb (fun id => match vget ps id, vget cs id with
                                 | Some x, Some y =>
                                     negb (negb (sstate_eqb (v_state x) Tombstone) && sstate_eqb (v_state y) Tombstone)
@@ -589,13 +590,37 @@ Definition tombstone_back (prev cur : obs) : bool :=
   existsb (fun id => match vget (o_served prev) id, vget (o_served cur) id with
                      | Some x, Some y => sstate_eqb (v_state x) Tombstone && negb (sstate_eqb (v_state y) Tombstone)
                      | _, _ => false end) (map fst (o_served prev)).
+(* a store went to Tombstone in this step although the region tree (placement rg, before the step) holds a peer on it *)
+Definition buried_nonempty (o : op) (rg : amap (list Z)) (prev cur : obs) : bool :=
+  match o with
+  | _ => existsb (fun id => match vget (o_served prev) id, vget (o_served cur) id with
+                            | Some x, Some y => negb (sstate_eqb (v_state x) Tombstone) && sstate_eqb (v_state y) Tombstone
+                                                && negb (Nat.eqb (count_regions rg id) 0)
+                            | _, _ => false end) (map fst (o_served prev))
+  end.
+(* an acknowledged tombstone cleanup removes every tombstone record without region peers; with no registration among the
+   two operations such a record must not be there at the end *)
+Definition is_ok_clean (o : op) (r : res) : bool := match o with OClean _ NoFault => res_eqb r ROk | _ => false end.
+Definition is_put (o : op) : bool := match o with OPut _ _ _ | ORegion _ _ => true | _ => false end.  (* a region heartbeat can give the tombstone a peer: cleanup skips it *)
+Definition removed_record_back (a b : op) (o : oobs) : bool :=
+  (is_ok_clean a (oo_ra o) || is_ok_clean b (oo_rb o)) && negb (is_put a) && negb (is_put b) &&
+  existsb (fun e : Z * view => sstate_eqb (v_state (snd e)) Tombstone && (v_rcf (snd e) =? 0) &&
+                               match vget (o_served (oo_final o)) (fst e) with Some _ => true | None => false end)
+          (o_served (oo_before o)).
 Definition monitor_o (c : ocase) : list string :=
-  let '(_, _, _, a, b, o) := c in
-  ((if serialisable c then [] else ["C14:overlapping-operations-not-serialisable"]) ++
+  let '(cv, p, setup, a, b, o) := c in
+  let s0 := run_state run_op (boot cv p) setup in
+  ((* fix fdb55d1: UpdateStoreLabels used to look the store up before the cluster lock, so pairs with a label update were
+      not serialisable (driver's scripted pairs 3 and 4 are the regressions) *)
+   (if serialisable c then [] else ["C14:overlapping-operations-not-serialisable"]) ++
+   (if removed_record_back a b o then ["C14:tombstone-returned"] else []) ++
    (match oo_mid o with
     | Some m =>
         (if tombstone_back (oo_before o) m || tombstone_back m (oo_final o) then ["C14:tombstone-returned"] else []) ++
-        (if step_moves_ok b (oo_before o) m && step_moves_ok a m (oo_final o) then [] else ["C14:illegal-lifecycle-move"])
+        (if step_moves_ok b (oo_before o) m && step_moves_ok a m (oo_final o) then [] else ["C14:illegal-lifecycle-move"]) ++
+        (* b was acknowledged (and is visible in m) before a took effect: a must not bury a store on which b placed a peer *)
+        (if buried_nonempty b (regions s0) (oo_before o) m || buried_nonempty a (regions (fst (run_cmd s0 b))) m (oo_final o)
+         then ["C14:bury-decision-uses-region-count-read-outside-lock"] else [])
     | None => []
     end) ++
    (if addr_unique (o_served (oo_final o)) then [] else ["C14:duplicate-live-address"]))%list.
